@@ -524,10 +524,18 @@ def run(ctx):
     else:
         li, lp = loops[0]
         it = lp.iter
+        if isinstance(it, ast.Name):
+            from sa import paths as _P43
+
+            it = _P43.value_aliases(tsx).get(it.id, it)    # the segments handed to a helper that loops over them
         sep = None
         if isinstance(it, ast.Call) and isinstance(it.func, ast.Attribute) and it.func.attr == "split" and dotted(it.func.value) == ts.node.args.args[1].arg \
                 and len(it.args) == 1:
             sep = prog.const(it.args[0], ts.module)
+        elif isinstance(it, ast.Call) and isinstance(it.func, ast.Attribute) and it.func.attr == "splitlines" and dotted(it.func.value) == ts.node.args.args[1].arg:
+            sep = "<every line boundary (str.splitlines)>"
+        elif isinstance(it, ast.Call) and dotted(it.func) == "re.split" and len(it.args) == 2 and dotted(it.args[1]) == ts.node.args.args[1].arg:
+            sep = "<pattern %r>" % (prog.const(it.args[0], ts.module),)
         if sep != "\n":
             probs.append("segments are split on %r, not LF" % (sep,))
         if clear_i is None or clear_i > li:
@@ -548,7 +556,10 @@ def run(ctx):
                 addp, filled = "<chained>", True
         if not (addp and filled) or any(isinstance(x, (ast.If, ast.Continue, ast.Break)) for x in ast.walk(lp)):
             probs.append("not exactly one paragraph added and filled per segment")
-    if probs:
+    if probs and any(p_ in ("segments are split on None, not LF", "expected one loop over the segments") for p_ in probs):
+        # how the assigned text is cut into segments was not recognised: an analysis gap, not a counter-fact
+        ctx.error("TextFrame.text.setter", "; ".join(probs))
+    elif probs:
         ctx.violation("R4.3", "TextFrame.text.setter", "; ".join(probs), file=ts.file, line=ts.line)
     else:
         ctx.ok("R4.3", "TextFrame.text.setter", sample={"split": "LF", "per_segment": "add_p(); append_text(segment)", "first": "clear_content()"})
